@@ -308,6 +308,24 @@ def gen_resp(rng, t=None):
     raise ValueError(t)
 
 
+def devinfo_boundary(rng):
+    """device-identification responses whose object area totals exactly 244..248 bytes (the 253-byte PDU limit
+    is reached at 246), split over 1..4 objects"""
+    out = []
+    for total in (244, 245, 246, 247, 248):
+        for nobj in (1, 2, 3, 4):
+            room = total - 2 * nobj
+            if room < 0:
+                continue
+            cuts = sorted(rng.randrange(0, room + 1) for _ in range(nobj - 1))
+            lens = [b - a for a, b in zip([0] + cuts, cuts + [room])]
+            info = [[k, [bytes_(rng, n)]] for k, n in enumerate(lens)]
+            fits = total <= 246
+            out.append({'t': 'readDeviceInfo', 'read_code': 1, 'conformity': 0x83, 'more_follows': 0,
+                        'next_object_id': 0, 'number_of_objects': nobj if fits else 0, 'information': info})
+    return out
+
+
 RESP_TYPES = ['readCoils', 'readDiscrete', 'readHolding', 'readInput', 'writeCoil', 'writeRegister', 'writeCoils',
               'writeRegisters', 'maskWrite', 'readWrite', 'diag', 'readExceptionStatus', 'getCommEventCounter',
               'getCommEventLog', 'reportSlaveId', 'readFileRecord', 'writeFileRecord', 'readFifo', 'readDeviceInfo',
